@@ -809,6 +809,83 @@ def gen_gated_lookup_case(r):
     return {"trig": gen_trigger(r), "main": "main", "defs": [{"name": "main", "steps": steps}], "fns": fns}
 
 
+def gen_unnameable_case(r):
+    """step expressions that mix an access the structure extractor cannot name (an index on a list literal,
+    `[a, b][0]`) with references to earlier steps — before it, after it, nested inside it, deeper and shallower"""
+    fns, steps = {}, []
+    for i in range(2):
+        l = f"st{i}"
+        c = r.choice(["ok", "ok", "ok", "skip", "retry", "permFail"])
+        fns[f"main.{l}"] = _vf(c, 5)
+        steps.append(_step(l, {"ref": {"fn": f"main.{l}"}}, inputs={"map": [["x", lit(i + 1)], ["flag", lit(False)]]}))
+    for j in range(r.randint(1, 2)):
+        l = f"st{2 + j}"
+        a, b = r.sample(["st0", "st1"], 2)
+        un_plain = call("at0", {"list": [lit(r.choice(["k", 7])), lit(1)]})
+        un_steps = call("at0", {"list": [path("steps", b, "got", "x"), lit(1)]})
+        entries = [["r", path("steps", a, "got", "x")],
+                   ["s", r.choice([un_plain, un_steps])],
+                   ["t", {"map": [["deep", {"map": [["u", r.choice([un_plain, un_steps])]]}], ["v", path("steps", b, "got", "x")]]}]]
+        if r.random() < 0.5:
+            entries.append(["w", {"list": [un_plain, path("steps", a, "site")]}])
+        r.shuffle(entries)
+        entries = entries[:r.randint(2, len(entries))]
+        sk = None
+        if r.random() < 0.3:
+            sk = call("at0", {"list": [path("steps", a, "got", "flag"), lit(True)]})
+        fns[f"main.{l}"] = _vf() if r.random() < 0.6 else _rf(f"main.{l}", "get-ok")
+        steps.append(_step(l, {"ref": {"fn": f"main.{l}"}}, inputs={"map": entries}, skip_if=sk))
+    return {"trig": gen_trigger(r), "main": "main", "defs": [{"name": "main", "steps": steps}], "fns": fns}
+
+
+def gen_cluster_scoped_case(r):
+    """cluster-scoped ResourceFunctions (`apiConfig.namespaced: false`, no namespace) among namespaced ones: one that
+    starts after another step, plus independent steps whose API calls finish before or after it"""
+    fns, steps = {}, []
+    fns["main.st0"] = _rf("main.st0", r.choice(["get-ok", "match-ok"]))
+    steps.append(_step("st0", {"ref": {"fn": "main.st0"}}, inputs={"map": [["x", lit(0)]]}))
+    f = _rf("main.st1", r.choice(["get-ok", "match-ok", "create", "get-retry"]), d=7)
+    f["rf"].update({"kind": "Cthing", "cluster": True})
+    fns["main.st1"] = f
+    ins = [["y", lit(1)]]
+    if r.random() < 0.8:
+        ins.append(["after", path("steps", "st0", "got", "x")])
+    steps.append(_step("st1", {"ref": {"fn": "main.st1"}}, inputs={"map": ins}))
+    for i in range(2, r.randint(3, 5)):
+        l = f"st{i}"
+        g = _rf(f"main.{l}", r.choice(["get-ok", "match-ok", "create"]), d=7)
+        if r.random() < 0.3:
+            g["rf"].update({"kind": "Cthing", "cluster": True})
+        fns[f"main.{l}"] = g
+        steps.append(_step(l, {"ref": {"fn": f"main.{l}"}}, inputs={"map": [["x", lit(i)]]}))
+    l = f"st{len(steps)}"
+    fns[f"main.{l}"] = _vf()
+    steps.append(_step(l, {"ref": {"fn": f"main.{l}"}}, inputs={"map": [["a", path("steps", "st1")], ["b", path("steps", "st2")]]}))
+    return {"trig": gen_trigger(r), "main": "main", "defs": [{"name": "main", "steps": steps}], "fns": fns}
+
+
+def gen_not_ready_sub_case(r):
+    """a ready workflow with a step whose Logic is a sub-workflow that is NOT ready (one of its steps references a
+    Function that was never offered): the sub-workflow answers with its `steps_ready` outcome.  `no_model`: compared
+    between repeated passes / completion orders of the implementation only"""
+    fns, steps = {}, []
+    fns["main.st0"] = _rf("main.st0", "get-ok") if r.random() < 0.5 else _vf()
+    steps.append(_step("st0", {"ref": {"fn": "main.st0"}}, inputs={"map": [["x", lit(1)]]}))
+    sub = "sub-main.st1"
+    inner = []
+    n = r.randint(1, 3)
+    missing = r.randrange(n)
+    for j in range(n):
+        site = f"{sub}.in{j}"
+        fns[site] = {**_vf("retry", 15), "absent": True} if j == missing else _vf()
+        inner.append(_step(f"in{j}", {"ref": {"fn": site}}, inputs={"map": [["p", path("parent", "p")]]}))
+    steps.append(_step("st1", {"ref": {"wf": sub}}, inputs={"map": [["p", path("steps", "st0", "got", "x")]]}))
+    fns["main.st2"] = _vf()
+    steps.append(_step("st2", {"ref": {"fn": "main.st2"}}, inputs={"map": [["q", path("steps", "st1")]]}))
+    return {"trig": gen_trigger(r), "main": "main", "defs": [{"name": "main", "steps": steps}, {"name": sub, "steps": inner}],
+            "fns": fns, "no_model": True}
+
+
 def gen_race_case(r):
     """a step with ≥ 2 dependencies that are NOT Ok and each finish on an API call (so that their completion order
     can be permuted), `condition` declared on the dependent and on the steps downstream of it"""
@@ -1010,6 +1087,8 @@ def cel_expr(e):
             return f"={a[0]} in {a[1]}"
         if e["call"] == "size":
             return f"=size({a[0]})"
+        if e["call"] == "at0":          # index on a list literal: an access the structure extractor cannot name
+            return f"={a[0]}[0]"
         return f"={a[0]}.{e['call']}({', '.join(a[1:])})"       # flatten / overlay: method style
     return "={" + ", ".join(cel_lit(k) + ": " + cel_expr(x)[1:] for k, x in e["map"]) + "}"
 
@@ -1067,6 +1146,9 @@ def fn_spec(fid, f):
             "create": {"delay": f["d"]},
             "update": {"recreate" if rf["mode"] == "recreate" else "patch": {"delay": f["d"]}},
             "return": ret}
+    if rf.get("cluster"):           # cluster-scoped kind: no namespace anywhere
+        spec["apiConfig"]["namespaced"] = False
+        del spec["apiConfig"]["namespace"]
     if rf.get("noplural"):          # the plural must be discovered (`api.lookup_kind`) on first use
         del spec["apiConfig"]["plural"]
     if f.get("noret"):
@@ -1094,10 +1176,11 @@ def initial_objects(case, owner_ref):
         if need is None:
             continue
         kind, api_version = rf.get("kind", KIND), rf.get("apiVersion", API_VERSION)
+        ns = None if rf.get("cluster") else NS
         for name in resource_names(f):
-            objs[(api_version, kind.lower() + "s", NS, name)] = {
+            objs[(api_version, kind.lower() + "s", ns, name)] = {
                 "apiVersion": api_version, "kind": kind,
-                "metadata": {"name": name, "namespace": NS, "ownerReferences": [dict(owner_ref)]},
+                "metadata": {"name": name, **({"namespace": ns} if ns else {}), "ownerReferences": [dict(owner_ref)]},
                 "spec": {"want": 2 if need == "differ" else 1, **({"tag": fid} if f.get("showres") else {})}}
     return objs
 
@@ -1145,6 +1228,8 @@ def koreo_specs(case):
     for fid, f in case["fns"].items():
         kind, spec = fn_spec(fid, f)
         kinds[fid] = kind
+        if f.get("absent"):      # referenced but never offered: whoever references it is not ready
+            continue
         out.append((kind, f.get("name", fid), spec))     # `name`: the Koreo resource name when it is not the id
     for wf in reversed(case["defs"]):       # sub-workflows are appended after their user
         spec = workflow_spec(wf)
